@@ -354,13 +354,16 @@ func main() {
 	for k := *start; k < *rounds; k++ {
 		_ = enc.Encode(map[string]any{"begin": k})
 		r := vh.NewRand(*seed).Fork(fmt.Sprintf("race-round-%d", k))
-		switch k % 40 {
-		case 0:
-			total += warmCold(enc, *seed, k, r)
-			continue
-		case 4:
-			total += deepDecode(enc, *seed, k, r)
-			continue
+		// every 40th round up to round 400, every 400th after that (the thorough tier runs thousands of rounds)
+		if k < 400 || k%400 < 40 {
+			switch k % 40 {
+			case 0:
+				total += warmCold(enc, *seed, k, r)
+				continue
+			case 4:
+				total += deepDecode(enc, *seed, k, r)
+				continue
+			}
 		}
 		u, why := cdesc.GenUniverse(r, fmt.Sprintf("r%dx%d", *seed, k))
 		if k%3 == 1 {
